@@ -18,7 +18,7 @@ use winter_math::{ExtensionOf, FieldElement, StarkField};
 use winter_verifier::{verify, AcceptableOptions};
 
 use crate::common::{arg_value, guarded, panic_key};
-use crate::rec::{clog_take, RecCoin};
+use crate::rec::{clog_take, hlog_enable, hlog_take, RecCoin, RecHasher};
 use crate::shape::{ShapeAir, ShapeGkrVerifier, ShapeInputs};
 use crate::stark::{build, prove_with, Scenario};
 use crate::toy::Toy;
@@ -140,12 +140,17 @@ fn one<E: FieldElement<BaseField = Toy>>(sc: &Scenario) -> Result<Value, String>
     ROLES.with(|r| r.borrow_mut().clear());
     let bytes = proof.to_bytes();
     let parsed = Proof::from_bytes(&bytes).map_err(|e| format!("parse: {e}"))?;
-    let verdict = match guarded(|| verify::<RecAir, H, RecCoin<H>>(parsed, b.inputs.clone(), &AcceptableOptions::MinConjecturedSecurity(0))) {
+    // the verifier hashes through the recording hasher: every merge it performs is evidence for Trace_Verifier's commitment stage
+    hlog_enable(true);
+    hlog_take();
+    let verdict = match guarded(|| verify::<RecAir, RecHasher<H>, RecCoin<RecHasher<H>>>(parsed, b.inputs.clone(), &AcceptableOptions::MinConjecturedSecurity(0))) {
         Ok(Ok(())) => "accept".to_string(),
         Ok(Err(e)) => format!("{e:?}"),
         Err(p) => format!("panic@{}", panic_key(&p)),
     };
     let vlog = clog_take();
+    let hlog = hlog_take();
+    hlog_enable(false);
     let roles: Vec<(String, Vec<Value>)> = ROLES.with(|r| std::mem::take(&mut *r.borrow_mut()));
     let get = |name: &str| -> Vec<Value> { roles.iter().find(|(n, _)| n == name).map(|(_, v)| v.clone()).unwrap_or_default() };
     let zero = val(&E::ZERO);
@@ -219,6 +224,51 @@ fn one<E: FieldElement<BaseField = Toy>>(sc: &Scenario) -> Result<Value, String>
     };
     let rem: Vec<Value> = vals(&proof.fri_proof.parse_remainder::<E>().map_err(|e| format!("remainder: {e}"))?);
 
+    // ---- commitments: interned digests, the merges the verifier performed, and per tree the leaf digests of the opened rows
+    let mut ids: std::collections::HashMap<Vec<u8>, u64> = std::collections::HashMap::new();
+    let mut intern = |d: &[u8]| -> u64 {
+        let n = ids.len() as u64 + 1;
+        *ids.entry(d.to_vec()).or_insert(n)
+    };
+    let merges: Vec<[u64; 3]> = hlog.iter().filter(|c| c.f == "merge").map(|c| [intern(&c.a[0]), intern(&c.a[1]), intern(&c.out)]).collect();
+    let leaf_of = |bytes: &[u8]| -> Option<Vec<u8>> { hlog.iter().find(|c| c.f == "hash_elements" && c.a[0] == bytes).map(|c| c.out.to_vec()) };
+    fn row_bytes<X: FieldElement>(row: &[X]) -> Vec<u8> {
+        use winter_utils::Serializable;
+        let mut v = Vec::new();
+        for e in row {
+            e.write_into(&mut v);
+        }
+        v
+    }
+    let pos_usize: Vec<usize> = positions.iter().map(|p| *p as usize).collect();
+    let mut trees: Vec<Value> = vec![];
+    if nq > 0 {
+        let mut tree = |name: &str, root: Vec<u8>, depth: u32, pos: &[usize], rows: Vec<Vec<u8>>, intern: &mut dyn FnMut(&[u8]) -> u64| {
+            let leaves: Vec<u64> = rows.iter().map(|rb| leaf_of(rb).map(|d| intern(&d)).unwrap_or(0)).collect();
+            trees.push(json!({"name": name, "root": intern(&root), "depth": depth, "positions": pos, "leaves": leaves}));
+        };
+        let (troots2, croot2, froots2) = proof.commitments.clone().parse::<H>(segments, layers).map_err(|e| format!("commitments: {e}"))?;
+        for (seg, q) in proof.trace_queries.iter().enumerate() {
+            let w = if seg == 0 { sh.width } else { sh.aux_width() };
+            let rows: Vec<Vec<u8>> = if seg == 0 {
+                q.clone().parse::<H, Toy>(lde, nq, w).map_err(|e| format!("{e}"))?.1.rows().map(|r| row_bytes(r)).collect()
+            } else {
+                q.clone().parse::<H, E>(lde, nq, w).map_err(|e| format!("{e}"))?.1.rows().map(|r| row_bytes(r)).collect()
+            };
+            tree(if seg == 0 { "main" } else { "aux" }, troots2[seg].as_bytes().to_vec(), lde.ilog2(), &pos_usize, rows, &mut intern);
+        }
+        let rows: Vec<Vec<u8>> = proof.constraint_queries.clone().parse::<H, E>(lde, nq, ccols).map_err(|e| format!("{e}"))?.1.rows().map(|r| row_bytes(r)).collect();
+        tree("constraints", croot2.as_bytes().to_vec(), lde.ilog2(), &pos_usize, rows, &mut intern);
+        let (lq, _lp) = proof.fri_proof.clone().parse_layers::<H, E>(lde, fold).map_err(|e| format!("fri layers: {e}"))?;
+        let mut pos = pos_usize.clone();
+        let mut size = lde;
+        for (d, flat) in lq.iter().enumerate() {
+            pos = winter_fri::folding::fold_positions(&pos, size, fold);
+            size /= fold;
+            let rows: Vec<Vec<u8>> = flat.chunks(fold).map(|r| row_bytes(r)).collect();
+            tree(&format!("fri{}", d + 1), froots2[d].as_bytes().to_vec(), size.ilog2(), &pos, rows, &mut intern);
+        }
+    }
     // the auxiliary random elements as field elements again (for the auxiliary assertions of the AIR)
     let rands_e: Vec<E> = get("rands").iter().map(|v| {
         let cs: Vec<Toy> = match v {
@@ -250,7 +300,7 @@ fn one<E: FieldElement<BaseField = Toy>>(sc: &Scenario) -> Result<Value, String>
     let ev3 = json!({"z": z.unwrap_or(zero.clone()), "dt": get("dt"), "dc": get("dc"), "dl": get("dl").first().cloned().unwrap_or(zero.clone()), "alphas": alphas.iter().map(|a| a.clone().unwrap_or(zero.clone())).collect::<Vec<_>>(),
         "cur": cur, "nxt": nxt, "lag": lag, "hz": vals(&hz),
         "positions": positions, "main_rows": tables.get(0).cloned().unwrap_or_default(), "aux_rows": tables.get(1).cloned().unwrap_or_default(),
-        "comp_rows": crow, "fri": fri, "rem": rem});
+        "comp_rows": crow, "fri": fri, "rem": rem, "merges": merges, "trees": trees});
     for part in [ev2, ev3] {
         for (k, v) in part.as_object().unwrap() {
             ev[k.as_str()] = v.clone();
